@@ -78,7 +78,7 @@ func (s *PortManager) PickEphemeralPort(testPort func(p uint16) (bool, *tcpip.Er
 	offset = verifEphemeralOffset(offset, count)
 
 	for i := uint16(0); i < count; i++ {
-		port = FirstEphemeral + (offset+i)%count
+		port = uint16(FirstEphemeral + (uint32(offset)+uint32(i))%uint32(count))
 		ok, err := testPort(port)
 		if err != nil {
 			return 0, err
